@@ -55,7 +55,7 @@ def run_driver(ctx, out, extra, seed, timeout=1500):
 def run(ctx):
     quick = ctx.tier == "quick"
     n_hist = 120 if quick else 1500
-    cap = 1500 if quick else 12000
+    cap = 1000 if quick else 12000
     ctx.trusted += [
         "harness/p/translator target search_k (syn parser + Rust-subset -> Gallina translator; fails closed on every statement, operator, cast or method outside its subset) and Model/F64Lite.v, the integer model of the three binary64 operations compute_search_k uses (round-to-nearest-even; validated against the real function on every run, including inputs where the double rounding lands one ulp above an integer)",
         "f64: the theorems about compute_search_k's bounds hold for EVERY value of its float expression; the oversampling inequality has the premise 'float expression >= its exact rational value', which is checked on the driver grid inside coqc (total < 2^50) and not proved",
